@@ -5,7 +5,20 @@ open Lean PgFdr PgFdr.C19
 
 namespace C19io
 
-def ofChars (s : List Char) : Json := .str (String.ofList s)
+/-- The engine cuts the driver's output into answers with Python's `str.splitlines()`, which also breaks at U+0085,
+    U+2028 and U+2029 — characters `Json.compress` writes raw.  Strings of this property may contain them (white space
+    at line ends is the subject), so they leave the driver escaped: U+E000 → U+E000 U+E000, U+0085 → U+E000 `a`,
+    U+2028 → U+E000 `b`, U+2029 → U+E000 `c` (undone by `harness/props/C19.py:_unescape`; a bijection). -/
+def escapeLineBreaks : List Char → List Char
+  | [] => []
+  | c :: r =>
+    if c.toNat = 0xE000 then c :: c :: escapeLineBreaks r
+    else if c.toNat = 0x85 then Char.ofNat 0xE000 :: 'a' :: escapeLineBreaks r
+    else if c.toNat = 0x2028 then Char.ofNat 0xE000 :: 'b' :: escapeLineBreaks r
+    else if c.toNat = 0x2029 then Char.ofNat 0xE000 :: 'c' :: escapeLineBreaks r
+    else c :: escapeLineBreaks r
+
+def ofChars (s : List Char) : Json := .str (String.ofList (escapeLineBreaks s))
 def ofOptChars : Option (List Char) → Json
   | some s => ofChars s
   | none => .null
@@ -14,7 +27,7 @@ def ofAnnotation (a : Annotation) : Json :=
   obj [("id", ofOptChars a.id), ("fasta_header", ofChars a.header), ("uniprot_id", ofChars a.uniprotId),
        ("entry_name", ofChars a.entryName), ("gene_name", ofOptChars a.geneName), ("length", ofNat a.length),
        ("organism", ofOptChars a.organism), ("description", ofChars a.description),
-       ("existence", match a.existence with | some n => ofNat n | none => .null)]
+       ("existence", match a.existence with | some n => ofInt n | none => .null)]
 
 def jrule (j : Json) : R IdRule := do
   match ← jstr j with
@@ -76,6 +89,22 @@ def handleAnnotations (j : Json) : R Json := do
                   Json.arr #[ofOptChars e.1, ofAnnotation e.2]) d),
                ("pseudo", .bool pseudo), ("columns", .arr cols.toArray)])
 
+/-- `{"op":"int","s":str}` → `{"value":n}` (Python `int(s)`) or `{"err":"bad_existence"}` -/
+def handleInt (j : Json) : R Json := do
+  let t ← jstr (← jget j "s")
+  match parseInt t.toList with
+  | some n => pure (obj [("value", ofInt n)])
+  | none => pure (ofErr Err.badExistence.tag)
+
+/-- `{"op":"charclass"}` → the model's character tables over every code point (lone surrogates are no `Char`):
+    `{"space":[cp…],"int_space":[cp…],"digits":[[cp,value]…]}` -/
+def handleCharclass (_ : Json) : R Json := do
+  let cps := (List.range 0x110000).filter (fun n => n < 0xD800 || 0xE000 ≤ n)
+  let space := cps.filter (fun n => isSpace (Char.ofNat n))
+  let ispace := cps.filter (fun n => isIntSpace (Char.ofNat n))
+  let digits := cps.filterMap (fun n => (digitValue (Char.ofNat n)).map (fun v => Json.arr #[ofNat n, ofNat v]))
+  pure (obj [("space", ofList ofNat space), ("int_space", ofList ofNat ispace), ("digits", .arr digits.toArray)])
+
 /-- `{"op":"fasta_records","lines":[…],"concat":b}` → `[[header,length]…]` -/
 def handleRecords (j : Json) : R Json := do
   let lines ← jlines (← jget j "lines")
@@ -86,5 +115,6 @@ def handleRecords (j : Json) : R Json := do
 
 /-- protocol handlers of property C19: (op name, handler) -/
 def handlersC19 : List (String × (Json → R Json)) :=
-  [("header", handleHeader), ("header_token", handleHeaderToken), ("annotations", handleAnnotations), ("fasta_records", handleRecords)]
+  [("header", handleHeader), ("header_token", handleHeaderToken), ("annotations", handleAnnotations), ("fasta_records", handleRecords),
+   ("int", handleInt), ("charclass", handleCharclass)]
 end PgFdr.Driver
